@@ -332,7 +332,16 @@ def check_call(ctx, t, subj, args, kwargs, env, record=True):
     if record:
         ctx.evaluations += 1
         for cls, detail in viol:
+            if cls.startswith("alias-"):
+                # The statement of C08 is about the call itself ("leaves its input network exactly as it was").  A result that
+                # shares a container with its argument has not changed the argument; it is recorded as an observation (what a
+                # later in-place edit of the *result* could do), not as a violation of C08.
+                ctx.stats["observation:" + cls] += 1
+                obs = ctx.extra.setdefault("aliasing_observations", {})
+                obs.setdefault(f"{t.vsite} [{cls}]", detail[:300])
+                continue
             ctx.violation(t.vsite, cls, case, detail=detail)
+        viol = [v for v in viol if not v[0].startswith("alias-")]
     return exc is None, exc, viol
 
 
